@@ -65,9 +65,55 @@ def body(A, Bn, objA, objB, job):
     return fails
 
 
+def run_crosshair(job):
+    """second engine on the string kernel (CrossHair 0.0.110): the real levenshtein_distance vs a textbook reference for
+    symbolic str of length <= 2 and <= 3.  A counterexample counts only if it replays; 'not confirmed' is recorded, not
+    failed (the deciding engine for the kernel is the z3 query on the symx summary)."""
+    import re
+    import subprocess
+    import sys
+    t0 = time.time()
+    target = os.path.join(common.ROOT, 'verif', 'xh_lev.py')
+    try:
+        import crosshair  # noqa: F401
+    except Exception:   # noqa
+        return dict(paths=1, queries=0, infeasible=0, aborted=0, solver_s=0.0, exhausted=True, unsupported=None, failures=[],
+                    samples=[dict(crosshair='not installed (setup fell back to z3 only): second engine skipped')], twin_reached=True,
+                    extra=dict(crosshair_confirmed=0))
+    try:
+        p = subprocess.run([sys.executable, '-m', 'crosshair', 'check', '--report_all', '--per_condition_timeout', str(job.get('timeout', 150)),
+                            target], capture_output=True, text=True, timeout=job.get('timeout', 150) * 2 + 60, cwd=common.ROOT)
+        out = p.stdout + p.stderr
+    except subprocess.TimeoutExpired:
+        out = 'timeout'
+    confirmed = out.count('Confirmed over all paths')
+    fails = []
+    for m in re.finditer(r"error: .*? when calling _kernel_agrees(?:_3)?\\((.*?)\\)(?: \\(which|$)", out, re.M):
+        try:
+            args = eval('(' + m.group(1) + ',)', {'__builtins__': {}}, {})
+            if len(args) != 2:
+                continue
+            # CrossHair's model characters are arbitrary code points; keep their equality pattern
+            names = {}
+            for ch in args[0] + args[1]:
+                names.setdefault(ch, chr(97 + len(names)))
+            wit = dict(kernel=True, s=''.join(names[c] for c in args[0]), t=''.join(names[c] for c in args[1]))
+            rep = kernel_replay(wit)
+            fails.append(dict(tag='crosshair-counterexample', site='levenshtein_distance', detail=rep, witness=wit,
+                              reproduced=rep is not None, replay_tags=[rep]))
+        except Exception:   # noqa
+            pass
+    return dict(paths=max(confirmed, 1), queries=0, infeasible=0, aborted=0, solver_s=round(time.time() - t0, 1), exhausted=True,
+                unsupported=None, failures=fails, twin_reached=True,
+                samples=[dict(crosshair_output=[l for l in out.splitlines() if 'xh_lev' in l][:4])],
+                extra=dict(crosshair_confirmed=confirmed, crosshair_conditions=2))
+
+
 def run_job(job):
     if job.get('kind') == 'kernel':
         return run_kernel(job)
+    if job.get('kind') == 'crosshair':
+        return run_crosshair(job)
     return th.run_tree_job(job, body, site_default='TreeNode.diff', hang_tags=False)
 
 
@@ -170,6 +216,7 @@ def run_kernel(job):
 def jobs(tier, seed):
     N = 4 if tier == 'quick' else 5
     out = [dict(kind='kernel', shape=[n, m], weight=n * m) for n in range(N + 1) for m in range(N + 1)]
+    out.append(dict(kind='crosshair', weight=100, timeout=150 if tier == 'quick' else 600))
     # leaf pairs of every kind combination (symbolic payloads, lengths up to 3; "" included)
     kinds = [('i', 1), ('i', 2), ('i', 3), ('s', 0), ('s', 1), ('s', 2), ('s', 3), ('b', True), ('b', False), ('n',)]
     for a in kinds:
@@ -192,6 +239,7 @@ def jobs(tier, seed):
 
 META = dict(functions=th.TREE_FUNCTIONS + ["graphtage.levenshtein.levenshtein_distance (summary == textbook DP; == 0 iff equal)",
                                             "LeafNode.__eq__ / LeafNode.edits / StringNode.edits / NullNode.edits on all kind pairs",
+                                            "second engine: crosshair check on levenshtein_distance vs reference, symbolic str of length <= 3",
                                             "__main__.main: the had_edits expression (AST slice)"],
             stubs=th.TREE_STUBS, assumptions=th.TREE_ASSUME + ["equal-as-data oracle: same leaf kind (null/bool/int/str) and value, "
                                                                "lists position-wise, mappings as key->value functions"],
